@@ -246,19 +246,12 @@ def job_lookup(Ls, levels_filter=None):
 def main():
     H.selftest()
     jobs = []
-    if TIER == 'thorough':
-        for l in range(2, 8):
-            for N in trunc_levels(l):
-                jobs.append((job_tables, {'l': l, 'levels': [N]}))
-        for L in range(2, 8):
-            jobs.append((job_lookup, {'Ls': [L]}))
-    else:
-        for l in (2, 3):
-            for N in trunc_levels(l):
-                jobs.append((job_tables, {'l': l, 'levels': [N]}))
-        for l in (4, 5, 6, 7):
-            jobs.append((job_tables, {'l': l, 'levels': [2, 4, 6]}))
-        jobs.append((job_lookup, {'Ls': [2, 3]}))
+    # every shipped table is cheap enough (about 100 s on 16 cores in total) to be checked on every change: quick == exhaustive over (l, N, p, q)
+    for l in range(2, 8):
+        for N in trunc_levels(l):
+            jobs.append((job_tables, {'l': l, 'levels': [N]}))
+    for L in range(2, 8):
+        jobs.append((job_lookup, {'Ls': [L]}))
     meta = {
         'explanation': 'Every eccentricity_funcs_truncN of the selected degrees is executed from the current source with a symbolic e (exact decimal literals). '
                        'Polynomial entries: the coefficient-wise statement is decided by z3 through polynomial interpolation uniqueness: with D+1 rational nodes, the equations '
@@ -266,8 +259,7 @@ def main():
                        'g_k comes from an exact Fraction power series of X^{-(l+1),l-2p}_{l-2p+q}(e)^2 to order 24 (contour-integral formula, self-tested against Kaula G_201, G_200 and the k=0 closed form). '
                        'Closed-form (k=0) entries: rational-function query table == P(e)^2/(1-e^2)^(2l-1) for all e in [0,1). Omitted modes: finite-domain Int query that every (p,q) with a non-zero '
                        'series term through e^N is present. Lookup helpers/dictionaries: executed and compared entry by entry (identity of terms).',
-        'bounds': ('thorough: l in 2..7, every shipped N (2..20, 22 for l=2), p in 0..l, |q| <= N/2+3' if TIER == 'thorough' else
-                   'quick: l in {2,3} every shipped N; l in 4..7 N in {2,4,6}; lookup helpers for max-l 2,3') + '; coefficient tolerance 1e-11 relative + 1e-13 absolute.',
+        'bounds': 'both tiers: l in 2..7, every shipped N (2..20, 22 for l=2), p in 0..l, |q| <= N/2+3, every lookup helper; coefficient tolerance 1e-11 relative + 1e-13 absolute.',
         'outside': 'floating-point evaluation error of the polynomials at run time; series terms beyond order 24.',
         'assumptions': ['e in [0,1) for the closed-form entries'],
         'stubs': ['oracle: exact Fraction Hansen series (oracles/hansen.py)'],
